@@ -372,6 +372,29 @@ def write_evidence(prop, tier, seed, level, coverage, wall_s, violations, assump
     return p
 
 
+def replay_known(prop, replay_fn, rep):
+    """Replay every listed finding of this property from its witness.
+    known + still failing -> KNOWN-FINDING line; fixed + failing -> VIOLATION (a fixed entry suppresses nothing)."""
+    for k in known_for(prop):
+        wp = os.path.join(VERIF, k["witness"])
+        with open(wp) as f:
+            payload = json.load(f)
+        try:
+            import io, contextlib
+            buf = io.StringIO()
+            with contextlib.redirect_stdout(buf):
+                failing = bool(replay_fn(payload))
+        except Exception:
+            rep.harness_errors.append("witness %s: %s" % (k["id"], traceback.format_exc()))
+            continue
+        rep.evaluations += 1
+        rep.probes["witness_replays"] = rep.probes.get("witness_replays", 0) + 1
+        if failing and k.get("status") == "known":
+            rep.known_seen.append("%s %s" % (k["id"], k["summary"]))
+        elif failing:
+            rep.violations.append(("regression of fixed finding %s: %s" % (k["id"], k["summary"]), wp))
+
+
 class Report:
     """Collects what a check did and turns it into exit code + evidence."""
 
